@@ -116,6 +116,8 @@ fn observe_all(frame: &Frame, m: &Model, c: &Value, acc: &mut Acc, verbose: bool
             }
         }
     }
+    check_iterator_contract(&|| frame.fields(), &|(k, v): (&str, &str)| (k.to_string(), v.to_string()), &rem, "fields()", c, acc);
+    check_iterator_contract(&|| frame.clone().into_iter(), &|(k, v)| (k.to_string(), v), &rem, "into_iter()", c, acc);
     let via_ref: Vec<(String, String)> = (&*frame).into_iter().map(|(k, v)| (k.to_string(), v.to_string())).collect();
     if via_ref != rem {
         fail(acc, "ref-into-iter", format!("&frame iteration gives {via_ref:?}, model {rem:?}"), c);
@@ -150,6 +152,87 @@ fn observe_all(frame: &Frame, m: &Model, c: &Value, acc: &mut Acc, verbose: bool
         }
         if it.take_binary().map(|b| b.to_vec()) != if take_bin_at < steps { None } else { bin_model.clone() } {
             fail(acc, "into-iter-take-binary", "IntoIter::take_binary after iteration disagrees with the model".to_string(), c);
+        }
+    }
+}
+
+/// Positional and consuming adaptors (`nth`, `nth_back`, `last`, `count`, `size_hint`, `skip`,
+/// `step_by`, `rev`) must agree with the sequence that `next()` yields: an iterator type may
+/// override any of them.
+fn check_iterator_contract<I, T>(make: &dyn Fn() -> I, conv: &dyn Fn(I::Item) -> T, model: &[T], what: &str, c: &Value, acc: &mut Acc)
+where
+    I: DoubleEndedIterator,
+    T: PartialEq + std::fmt::Debug + Clone,
+{
+    // The adaptors are called on the iterator type itself (a `.map()` in between would replace
+    // `nth`, `last`, `count` by the defaults built on `next`).
+    let n = model.len();
+    acc.observer_calls += 1;
+    let (lo, hi) = make().size_hint();
+    if lo > n || hi.is_some_and(|h| h < n) {
+        fail(acc, "iterator-size-hint", format!("{what}: size_hint {:?} but {n} items remain", (lo, hi)), c);
+    }
+    let cnt = make().count();
+    if cnt != n {
+        fail(acc, "iterator-count", format!("{what}: count() = {cnt}, {n} items remain"), c);
+    }
+    let last = make().last().map(conv);
+    if last != model.last().cloned() {
+        fail(acc, "iterator-last", format!("{what}: last() = {last:?}, model {:?}", model.last()), c);
+    }
+    let mb = |j: usize| if j < n { model.get(n - 1 - j).cloned() } else { None };
+    for k in 0..=n + 1 {
+        acc.observer_calls += 2;
+        let mut it = make();
+        let got = it.nth(k).map(conv);
+        let (lo, hi) = it.size_hint();
+        let rest: Vec<T> = it.map(conv).collect();
+        let want_rest: Vec<T> = model.iter().skip(k + 1).cloned().collect();
+        if got != model.get(k).cloned() || rest != want_rest {
+            fail(acc, "iterator-nth", format!("{what}: nth({k}) = {got:?} then the rest {rest:?}; model {:?} then {want_rest:?}", model.get(k)), c);
+        }
+        if lo > want_rest.len() || hi.is_some_and(|h| h < want_rest.len()) {
+            fail(acc, "iterator-size-hint", format!("{what}: after nth({k}) size_hint {:?} but {} items remain", (lo, hi), want_rest.len()), c);
+        }
+        let mut it = make();
+        let got = it.nth_back(k).map(conv);
+        let rest: Vec<T> = it.map(conv).collect();
+        let want_rest: Vec<T> = model.iter().take(n.saturating_sub(k + 1)).cloned().collect();
+        if got != mb(k) || rest != want_rest {
+            fail(acc, "iterator-nth-back", format!("{what}: nth_back({k}) = {got:?} then the rest {rest:?}; model {:?} then {want_rest:?}", mb(k)), c);
+        }
+        if make().skip(k).map(conv).collect::<Vec<_>>() != model.iter().skip(k).cloned().collect::<Vec<_>>() {
+            fail(acc, "iterator-skip", format!("{what}: skip({k}) differs from the model"), c);
+        }
+        if make().rev().nth(k).map(conv) != mb(k) {
+            fail(acc, "iterator-rev-nth", format!("{what}: rev().nth({k}) differs from the model"), c);
+        }
+        if make().rev().skip(k).map(conv).collect::<Vec<_>>() != model.iter().rev().skip(k).cloned().collect::<Vec<_>>() {
+            fail(acc, "iterator-rev-skip", format!("{what}: rev().skip({k}) differs from the model"), c);
+        }
+    }
+    for step in [1usize, 2, 3] {
+        if make().step_by(step).map(conv).collect::<Vec<_>>() != model.iter().step_by(step).cloned().collect::<Vec<_>>() {
+            fail(acc, "iterator-step-by", format!("{what}: step_by({step}) differs from the model"), c);
+        }
+    }
+    if make().rev().map(conv).collect::<Vec<_>>() != model.iter().rev().cloned().collect::<Vec<_>>() {
+        fail(acc, "iterator-rev", format!("{what}: rev() differs from the model"), c);
+    }
+    // mixed: one step from the front, then positional from the back and vice versa
+    if n >= 2 {
+        let mut it = make();
+        let a = it.next().map(conv);
+        let b = it.last().map(conv);
+        if a != model.first().cloned() || b != model.last().cloned() {
+            fail(acc, "iterator-last", format!("{what}: next() then last() = {a:?}, {b:?}"), c);
+        }
+        let mut it = make();
+        let a = it.next_back().map(conv);
+        let b = it.nth(1).map(conv);
+        let want_b = if n >= 3 { model.get(1).cloned() } else { None };
+        if a != model.last().cloned() || b != want_b {
+            fail(acc, "iterator-nth", format!("{what}: next_back() then nth(1) = {a:?}, {b:?}; model {:?}, {want_b:?}", model.last()), c);
         }
     }
 }
@@ -288,6 +371,8 @@ fn check_response(w: &Wire, acc: &mut Acc, verbose: bool) {
             }
         }
     }
+    check_iterator_contract(&|| resp.frames(), &|r| r.map(observe_frame).map_err(observe_error), &items, "frames()", &c, acc);
+    check_iterator_contract(&|| resp.clone().into_iter(), &|r| r.map(|f| observe_frame(&f)).map_err(|e| observe_error(&e)), &items, "Response::into_iter()", &c, acc);
     let single: Item = resp.clone().into_single_frame().map(|f| observe_frame(&f)).map_err(|e| observe_error(&e));
     if Some(&single) != items.first() {
         fail(acc, "into_single_frame", format!("into_single_frame() = {single:?}, model {:?}", items.first()), &c);
@@ -344,7 +429,7 @@ pub fn run(tier: Tier) -> i32 {
     cov.evaluations = acc.nodes;
     cov.distinct_nontrivial = acc.nontrivial;
     cov.rule = format!(
-        "frames: all key sequences of length 0..=4 over {{a, A, b}} with distinct values, with and without a binary part ({} frames, built by the real parser) x every sequence of <= {depth} operations from {{get(a), get(A), get(b), get(zz), take_binary}}; after every step every observer incl. fields()/into_iter() under every next/next_back pattern; responses: 0..=3 frames with and without error under every front/back pattern with size hints; evaluations = operation-sequence prefixes (search tree nodes); non-trivial = frames with >= 2 fields and all response cases",
+        "frames: all key sequences of length 0..=4 over {{a, A, b}} with distinct values, with and without a binary part ({} frames, built by the real parser) x every sequence of <= {depth} operations from {{get(a), get(A), get(b), get(zz), take_binary}}; after every step every observer incl. fields()/into_iter() under every next/next_back pattern and the positional / consuming adaptors (nth, nth_back, last, count, size_hint, skip, step_by, rev); responses: 0..=3 frames with and without error under every front/back pattern with size hints; evaluations = operation-sequence prefixes (search tree nodes); non-trivial = frames with >= 2 fields and all response cases",
         acc.frames
     );
     cov.states = acc.nodes;
